@@ -24,7 +24,7 @@ func init() {
 	core.Register(&core.Prop{
 		ID:    "C19",
 		Level: "exploration",
-		Rule: "source trees {random, fan-out of 300-1500 entries with long names so the listing spans several 32KiB chunks, synthetic trees with a single stat larger than a chunk} x selectors {none, all, files only, dirs only, random nested subset closed under hard-link sources, by-name} x sources that contain an entry named .fsutil-metadata (file, symlink, empty dir) before and between selected files x prior destinations {empty, mutated copy, one holding a listing file / a symlink / a directory with that name}; real Send + real Receive(MetadataOnly); the listing file is decoded as little-endian length-prefixed records and compared with the STATs on the wire, dest minus the listing is compared with the projection of the source, REQ ids and notifications are checked. " +
+		Rule: "Plus nested files named .fsutil-metadata (new, changed, stale) and a stale non-empty directory at the listing's name in merge mode and behind a Filter (failing transfers there are violations). source trees {random, fan-out of 300-1500 entries with long names so the listing spans several 32KiB chunks, synthetic trees with a single stat larger than a chunk} x selectors {none, all, files only, dirs only, random nested subset closed under hard-link sources, by-name} x sources that contain an entry named .fsutil-metadata (file, symlink, empty dir) before and between selected files x prior destinations {empty, mutated copy, one holding a listing file / a symlink / a directory with that name}; real Send + real Receive(MetadataOnly); the listing file is decoded as little-endian length-prefixed records and compared with the STATs on the wire, dest minus the listing is compared with the projection of the source, REQ ids and notifications are checked. " +
 			"non-trivial = at least one selected regular file below a non-selected directory, or a multi-chunk listing, or a source entry with the listing name; distinct by (tree, selector, prior) fingerprint",
 		Assumptions: []string{"root", "selectors select the link source of every hard link they select", "a directory named .fsutil-metadata in the source is empty, except in the cases that exhibit known finding K7"},
 		Cases: func(tier string) int {
@@ -208,15 +208,15 @@ func c19Run(c *core.Ctx) *core.Result {
 	rmode := []string{"plain", "merge", "filter-listing"}[R.Weighted([]int{6, 1, 1})]
 	if rmode == "merge" {
 		pk = core.Pick(R, []string{"empty", "listing-file", "listing-symlink", "listing-symlink-inside"})
+		if core.NewRand(core.Mix(c.Seed, "C19-merge-listing-dir", c.Index)).P(1, 4) {
+			// nothing removes a stale non-empty directory of that name in
+			// merge mode: the listing still has to be written
+			pk = "listing-dir"
+		}
 	}
 	if nestedListing != "" && rmode == "plain" && nr.P(1, 2) {
 		// into a destination an earlier metadata-only receive has filled
 		pk = "listing-file"
-	}
-	if rmode == "filter-listing" && pk == "listing-dir" {
-		// (a stale non-empty directory of that name that the writer may not
-		// delete makes the call fail: nothing to judge)
-		pk = "listing-symlink"
 	}
 	prior := &tree.Tree{}
 	if pk != "empty" && rmode != "merge" {
@@ -333,9 +333,11 @@ func c19Run(c *core.Ctx) *core.Result {
 			r.ViolateD("listing-name-entry-with-dependents", det, "%s: the source holds a directory named %s with an entry below it; the metadata-only receive fails with %v (the same tree transfers without a selector)", desc, listingName, res.RecvErr)
 			return r
 		}
-		if rmode == "plain" {
+		if rmode == "plain" || pk == "listing-dir" || pk == "empty" || pk == "listing-file" {
 			// the real sender, a legal tree, no fault: the receive has to
-			// write its listing and the selected entries
+			// write its listing and the selected entries (in merge mode and
+			// behind a Filter too: a stale directory, file or nothing at the
+			// listing's name is no reason to fail)
 			r.ViolateD("transfer-failed", det, "%s: fault-free metadata-only transfer of a legal tree failed: send=%v recv=%v", desc, res.SendErr, res.RecvErr)
 			return r
 		}
